@@ -609,7 +609,10 @@ func universe(nib []int, keylen int) [][]int {
 }
 
 func main() {
-	mode := flag.String("mode", "edges", "edges|sim")
+	mode := flag.String("mode", "edges", "edges|sim|record")
+	trace := flag.String("trace", "trace.ndjson", "output trace (mode record)")
+	ntr := flag.Int("n", 20, "number of traces (mode record)")
+	steps := flag.Int("steps", 60, "steps per trace (mode record)")
 	in := flag.String("in", "", "input json")
 	out := flag.String("out", "summary.json", "summary output")
 	pad := flag.Int("pad", 0, "zero nibbles appended to model keys")
@@ -626,6 +629,8 @@ func main() {
 	case "sim":
 		sum.Mode = "replay"
 		runSim(e, *in)
+	case "record":
+		runRecord(e, *trace, *ntr, *steps)
 	default:
 		tl.Fatal("bad mode")
 	}
